@@ -217,3 +217,24 @@ Theorem connection_completes_request_exactly_once : forall hm transmitting ops,
   /\ (m_asked (x_in s) = true -> m_delivered (x_in s) = m_received (x_in s)).
 Proof. exact ProtocolFacts.connection_completes_request_exactly_once. Qed.
 Print Assumptions connection_completes_request_exactly_once.
+
+(** re-entrant use: when the decoder finishes the body of a response whose request was written, the
+    protocol is QUIESCENT by the time the consumer's connectionLost runs, so a request the
+    application issues from there is accepted ... *)
+Theorem consumer_is_told_after_the_protocol_is_quiescent : forall s,
+  x_pst s = SWaiting -> m_gone (x_in s) = false -> m_head (x_in s) = true -> m_fin (x_in s) = false ->
+  m_resp (x_in s) = RConnected ->
+  let s' := xstep false s (XP PFinish) in
+  x_pst s' = SQuiescent
+  /\ m_closed (x_in s') = m_closed (x_in s) ++ [reason_of (m_frame (x_in s)) true]
+  /\ hit TrClose s s' = is_nil_list (m_closed (x_in s)).
+Proof. exact consumer_told_when_quiescent. Qed.
+Print Assumptions consumer_is_told_after_the_protocol_is_quiescent.
+
+(** ... and, once accepted, is an exchange of its own on a clean protocol (to which every theorem
+    above applies): nothing of the first exchange reaches it *)
+Theorem second_request_runs_on_a_clean_protocol : forall hm1 cs1 t1 tr hm2 tx2 ops2 s2,
+  snd (two_requests hm1 cs1 t1 tr hm2 tx2 ops2) = Ran s2 ->
+  s2 = play false hm2 ops2 pinit (if tx2 then xinit_transmitting else xinit_waiting).
+Proof. exact second_request_on_clean_protocol. Qed.
+Print Assumptions second_request_runs_on_a_clean_protocol.
